@@ -10,7 +10,7 @@ COQ_AGREE = "agree"
 COQ_PROP_OK = "prop_ok"
 RULE = ("seeded random trees built from the public classes: agents nested up to depth 4 (fan-out <= 3), environments from leaf / ModularEnvironment (also via from_dict) / "
         "EnvironmentWrapper, sensors and actuators from leaves / dictionaries / wrappers (wrapper objects or plain functions) up to depth 4, an action value shaped like the actuator tree; in 30% of the trees distinct components of one class compare equal and hash alike (value-like objects); "
-        "the dictionary composites of the trees are user subclasses with counters of their own (every root event, one save, one load and one data call each - a harness-side clause). "
+        "the dictionary composites of the trees are user subclasses with callbacks and a state of their own (in the model: a pseudo-child visited last) and a data hook (counted on the harness side: once per observation / action). "
         "all eight root events are issued. Non-trivial = depth >= 3 somewhere and at least one dictionary and one wrapper; distinct = canonical JSON.")
 TRUSTED = [
     "Coq 8.16.1 kernel incl. vm_compute",
@@ -50,7 +50,7 @@ class G:
         if r < 0.7:
             self.has_dict = True
             names = self.rng.sample(range(20), self.rng.randint(0, 3))
-            return {"t": "sdict", "children": [[nm, self.sensor(d + 1)] for nm in names]}
+            return {"t": "sdict", "sid": self.nid(), "children": [[nm, self.sensor(d + 1)] for nm in names]}
         return {"t": "swrap", "sensor": self.sensor(d + 1), "wrapper": self.wrapper()}
 
     def actuator(self, d):
@@ -61,7 +61,7 @@ class G:
         if r < 0.7:
             self.has_dict = True
             names = self.rng.sample(range(20), self.rng.randint(0, 3))
-            return {"t": "adict", "children": [[nm, self.actuator(d + 1)] for nm in names]}
+            return {"t": "adict", "sid": self.nid(), "children": [[nm, self.actuator(d + 1)] for nm in names]}
         return {"t": "awrap", "actuator": self.actuator(d + 1), "wrapper": self.wrapper()}
 
     def env(self, d):
@@ -122,10 +122,9 @@ def precheck(case, obs):
 
 
 def composite_bypassed(obs):
-    """a user subclass of SensorsDict / ActuatorsDict placed in the tree must get every root event, one save, one load and the
-    data call exactly once - like any other component (harness-side clause; the Coq model gives these nodes no identity)"""
-    want = {"setup": 1, "teardown": 1, "paused": 1, "resumed": 1, "save": 1, "load": 1, "data": 1}
-    return any(c != want for c in obs.get("composites") or [])
+    """the data hook (read / operate) of a user subclass of SensorsDict / ActuatorsDict placed in the tree is called exactly once
+    per observation / action (harness-side clause; its callbacks and its state are in the Coq model as a pseudo-child)"""
+    return any(c != 1 for c in obs.get("composites") or [])
 
 
 N = {"agent": "n_agent", "environment": "n_environment", "sensor": "n_sensor", "actuator": "n_actuator", "wrapper": "n_wrapper",
@@ -146,10 +145,13 @@ def _node(s):
         return f"(Leaf LActuator {cn(s['id'])})"
     if t == "leafenv":
         return f"(Leaf LEnv {cn(s['id'])})"
-    if t == "sdict":
-        return f"(Node NSensorsDict 0%nat {cl(f'({cn(k)}, {_node(c)})' for k, c in s['children'])})"
-    if t == "adict":
-        return f"(Node NActuatorsDict 0%nat {cl(f'({cn(k)}, {_node(c)})' for k, c in s['children'])})"
+    if t in ("sdict", "adict"):
+        # a dictionary built by the harness is a user subclass: its own callbacks and state are a pseudo-child visited last
+        kind = "NSensorsDict" if t == "sdict" else "NActuatorsDict"
+        kids = [f"({cn(k)}, {_node(c)})" for k, c in s["children"]]
+        if "sid" in s:
+            kids.append(f"(n_self, Leaf LSelf {cn(s['sid'])})")
+        return f"(Node {kind} 0%nat {cl(kids)})"
     if t == "swrap":
         return f"(Node NSensorWrap 0%nat [(n_sensor, {_node(s['sensor'])}); (n_wrapper, {_w(s['wrapper'])})])"
     if t == "awrap":
